@@ -78,6 +78,10 @@ var c10Trees = []c10Tree{
 	}},
 	{"bad-call", false, func() *jen.Statement { return jen.Var().Id("x").Op("=").Id("f").Call(jen.Op(";")).Op("(") }},
 	{"bad-string", false, func() *jen.Statement { return jen.Var().Id("x").Op("=").Op(`"unterminated`) }},
+	// invalid compositions that render as one word
+	{"bad-lone-keyword", false, func() *jen.Statement { return jen.Func() }},
+	{"bad-identifier", false, func() *jen.Statement { return jen.Id("9x") }},
+	{"bad-dotted-word", false, func() *jen.Statement { return jen.Id("a.") }},
 }
 
 type c10Entry struct {
